@@ -277,7 +277,18 @@ def Mon.step (m : Mon) (w : World) (l : Label) (w' : World) : Mon × List Vio :=
                 match w.waiter x with
                 | .expecting b' _ _ _ _ _ => if b' == b then (x, l ++ [e]) else (x, l)
                 | _ => (x, l) },
-     (if !C02.beginOrder w p b e then v "C02" "beginOrder" ["C02-inv"] s!"bus {b}: {e} begins inline while the run loop holds an earlier event" else []) ++
+     -- (C02-inv is the recorded case: the handler that drains bus `b` inline runs under ANOTHER bus's run loop, while `b`'s
+     --  own run loop waits for the lock with the earlier event in hand. Under `b`'s own run loop it cannot happen on the
+     --  unchanged code: that run loop would be processing, not holding a taken event.)
+     (if !C02.beginOrder w p b e then
+        v "C02" "beginOrder"
+          (match p with
+           | .inst i =>
+             (match (execChain w (w.ni + 1) i).getLast? with
+              | some j => (match (w.inst j).exec with | .rl b'' => if b'' != b then ["C02-inv"] else [] | _ => ["C02-inv"])
+              | none => ["C02-inv"])
+           | _ => ["C02-inv"])
+          s!"bus {b}: {e} begins inline while the run loop holds an earlier event" else []) ++
      -- the run loop(s) of a bus begin events in the order they were enqueued
      (if outOfOrder then v "C02" "runLoopOrder" [] s!"bus {b}: the run loop begins event {e} (enqueue position {pos}) after having begun position {top}" else []) ++
      -- (a cancelled run-loop task may still receive the item of its pending get(), but it never processes it)
